@@ -76,6 +76,10 @@ def monitors(CL, LL, cfg, events, drv, log):
         m = LL.mon_values(drv.values_seen, entries)
         if m:
             res.append(("C02_delivered_is_log_segment (key/value/offset are the broker's)", m))
+        if hasattr(log, "units"):
+            m = LL.mon_giveup(events, steps, log, cfg.maxbuf)
+            if m:
+                res.append(("C02_delivered_is_log_segment (no omission: giving up only when the message cannot fit)", m))
     return res
 
 
@@ -252,6 +256,14 @@ def run(ck):
                 "log": [[o, list(k) if k is not None else None, list(v) if v is not None else None] for (o, k, v) in log_p.entries],
                 "reset": cfg_p.reset, "replay_op": "events"})
 
+    # finding probe F-C03-3 (also a C02 clause: nothing of a reply fetched for one life is delivered into the next)
+    for mode in ("async", "sync"):
+        obs3, deliv3, sent3 = LL.probe_restart_in_errback(mode)
+        ck.finding("F-C03-3", obs3,
+                   "processor failure (%s) on [0, 1] of a reply [0..5]; the start Deferred's errback calls stop() and start(100); the rest of "
+                   "the old reply is delivered into the new life (delivered %r)" % (mode, deliv3),
+                   {"kind": "finding probe: restart from the start Deferred's errback", "mode": mode, "delivered": deliv3, "replay_op": "restart_probe"})
+
     # --- 1. corpus
     for (name, cfg, log, store, first, steps) in corpus(CL, LL, rnd):
         events, drv, env = LL.honest_run(random.Random(5), cfg, log, store, steps, first=first, fault=0.0,
@@ -282,7 +294,7 @@ def run(ck):
         big = rnd.random() < 0.35
         if big:
             cfg.buf = rnd.choice([64, 128, 256])
-            cfg.maxbuf = rnd.choice([-1, -1, 1 << 20, cfg.buf * 16, cfg.buf])
+            cfg.maxbuf = rnd.choice([-1, -1, 1 << 20, cfg.buf * 16, cfg.buf, cfg.buf * 3, cfg.buf * 5, 700, 1000, 1500])
         long = (not big) and rnd.random() < 0.3          # a long log against a small buffer: many replies per start position
         if long:
             cfg.buf = rnd.choice([256, 512, 1024])
@@ -506,6 +518,10 @@ def replay(rp):
             bad = monitors(CL, LL, cfg, [tuple(e) for e in rp["events"]], drv, None)
         print("monitor verdicts:", json.dumps(bad, indent=1, default=repr))
         return 1 if bad else 0
+    if op == "restart_probe":
+        obs3, deliv3, sent3 = LL.probe_restart_in_errback(rp["mode"])
+        print("delivered:", deliv3, "commit requests:", sent3, "observed:", obs3)
+        return 1 if obs3 else 0
     if op == "composed":
         from props import consumer_compose_lib as CC
         return CC.replay_composed(rp)
